@@ -128,6 +128,10 @@ def run_py(src: str, entry: str, args: list, budget: int = 20000, max_abs: int =
         except PanicExc as e:
             ret, end = None, "panic"
             events.append(["panic", str(e)])
+        except ZeroDivisionError:
+            # Python raises where Guppy panics: the same observable "stops here"
+            ret, end = None, "panic"
+            events.append(["panic", "division by zero"])
         finally:
             sys.settrace(old)
     except BudgetExc:
